@@ -190,6 +190,12 @@ func (l *listener) handle(conn net.Conn) {
 		l.logger.Error("handling connection", zap.Error(err))
 	}
 
+	// a hijacked connection already belongs to the goroutine that accepted it from
+	// the wrapped listener; its counters must not be read here any more
+	if errors.Is(err, errHijacked) {
+		return
+	}
+
 	l.logger.Debug("connection stats",
 		zap.String("remote", cx.RemoteAddr().String()),
 		zap.Uint64("read", cx.bytesRead),
